@@ -77,7 +77,8 @@ def cases_b(draw):
         if draw(st.integers(0, 3)) == 0:
             requests[i] = draw(st.lists(st.sampled_from(ids), unique=True, min_size=1, max_size=3))
     guards = {i: draw(st.integers(0, 4)) != 0 for i in ids}
-    return {"ids": ids, "deps": deps, "roots": roots, "requests": requests, "guards": guards}
+    return {"ids": ids, "deps": deps, "roots": roots, "requests": requests, "guards": guards,
+            "request_form": draw(st.sampled_from(["list", "list", "tuple", "generator", "iterator", "dict_keys"]))}
 
 
 # ---------------------------------------------------------------- harness A
@@ -225,7 +226,10 @@ def check_b(case):
             if req:
                 visited = [e[1] for e in log if e[0] == "visit"]
                 snapshots.append((len(visited), list(req), set(visited), list(ctrl.plan)))
-                return None, list(req)
+                # the request comes back in one of the containers a callback may use (some can be read only once)
+                form = case.get("request_form", "list")
+                return None, {"list": list, "tuple": tuple, "generator": lambda r: (x for x in r), "iterator": iter,
+                              "dict_keys": lambda r: dict.fromkeys(r).keys()}[form](list(req))
             return None, []
 
     ctrl.reset()
